@@ -126,7 +126,8 @@ def susp_check(n, is_map, tol, kinds, d0, d1, choices, eager=(), fail_refresh=Fa
     h.check(all(sync for (u, sync) in st.log if u is None), "the state refresh before resuming a branch must be a synchronous checkpoint")
     resubmitted = len(XW.VExecPool.last.all) - n
     if st.dead is None:
-        h.check(len(empties) == resubmitted, "each resubmission must be preceded by exactly one empty (refresh) checkpoint")
+        # (a resumed branch must see what the backend did meanwhile - otherwise it re-parks on a timer that has already fired and nothing ever wakes it)
+        h.check(len(empties) >= resubmitted, "a branch was resubmitted without a state refresh")
     statuses = [e.status for e in ex.executables_with_state]
     if st.dead is not None:
         h.reach("refresh_failed")
